@@ -316,6 +316,17 @@ def mkphi(c, a, b):
     return ("phi", c, a, b)
 
 
+def mkattr(base, name):
+    """attribute access in normal form: the attribute of a choice between values is the choice between their attributes
+    (`(a if c else b).x` is `a.x if c else b.x`), also when the choice is what an inlined helper returns"""
+    inner = base
+    while inner[0] == "inl":
+        inner = inner[2]
+    if inner[0] == "phi":
+        return mkphi(inner[1], mkattr(inner[2], name), mkattr(inner[3], name))
+    return ("attr", base, name)
+
+
 def _hashable(v):
     if isinstance(v, (list, tuple)):
         return tuple(_hashable(x) for x in v)
@@ -699,7 +710,7 @@ class _State(object):
             ra = self.record_args(base)
             if ra is not None and n.attr in ra[0]:
                 return ra[1][ra[0].index(n.attr)]
-            return ("attr", base, n.attr)
+            return mkattr(base, n.attr)
         if isinstance(n, ast.Call):
             return self.call(n)
         if isinstance(n, ast.BinOp):
